@@ -4,7 +4,7 @@ import json, os, subprocess, sys
 
 ROOT = os.path.dirname(os.path.dirname(os.path.abspath(__file__)))
 
-E1 = "bounded-exhaustive model checking: DFS over the choice tree of (rule, data) inputs, every leaf executed on the real apply() and compared with the reference model R and oracle-free laws (exhaustive up to the stated lengths, plus position-sensitive size probes at lengths around powers of two up to 257 / 1000)"
+E1 = "bounded-exhaustive model checking: DFS over the choice tree of (rule, data) inputs, every leaf executed on the real apply() and compared with the reference model R and oracle-free laws (exhaustive up to the stated lengths; plus closed sweeps - every length up to 1100 / 2100 with distinguished positions, every nesting depth, every operator x rejected count x evaluated position - and listed corpora of hard values: confusable strings, look-alike twins, number texts at every notation and width limit, validated per value against V8 where they feed a conversion; stdout and stderr of every execution are captured and judged)"
 
 CHECKS = {
     # id: (engine, technique, level text, design_ref, level_note)
